@@ -7,10 +7,12 @@ import e2e_streams as ES
 
 MODULE = "Props.C08"
 THEOREMS = ["C08_count_within_bound", "C08_large_group_passes", "C08_noise_off_floor", "C03_boxMuller_bound", "C10_adjust_sum",
-            "C10_microdata_rows", "C12_patch", "C18_outlier_keeps_ranges", "C18_tree_invariant", "C18_rows_partitioned", "C18_forest_trees1", "C18_forest_tree"]
+            "C10_microdata_rows", "C12_patch", "C18_outlier_keeps_ranges", "C18_tree_invariant", "C18_rows_partitioned", "C18_forest_trees1", "C18_forest_tree",
+            "C10_forest_harvest_conservation", "C08_materialize_rows"]
 PARTIAL = ["'no input row is lost or counted twice' is proved for every tree a forest hands out, folded outliers included (C18_forest_trees1, "
-           "C18_forest_tree: the leaves' rows are a permutation of 0..n-1); the composition of the pieces into one Lean theorem about sample() "
-           "is not done",
+           "C18_forest_tree: the leaves' rows are a permutation of 0..n-1); composed for one cluster (materialize_tree = sample() under "
+           "SingleClustering): C08_materialize_rows — rows = the root's released count or one less, or none — tied by the composed stream S-sample1; "
+           "the composition through stitching (several clusters) is the per-stage theorems of C12, not one theorem",
            "the hard bound of the deviate is proved over the reals; the double-precision libm evaluation is not covered"]
 ASSUMPTIONS = []
 TRUSTED = ["typed-table generators; strategies single / none / default(<=4 columns)"]
@@ -64,6 +66,7 @@ def stream_rows(ctx, ntables):
 def run(ctx, built):
     stream_rows(ctx, ctx.scale(60, 800))
     TS.stream_harvest(ctx, built, ctx.scale(8, 100), max_rows=ctx.scale(160, 500), maxdim=2)
+    ES.stream_sample1(ctx, built, ctx.scale(10, 120))
 
 
 def search(ctx, seeds):
